@@ -97,8 +97,17 @@ func (p *Preprocessor) CFG(graph *cfg.CFG, funcDecl *ast.FuncDecl) *cfg.CFG {
 	// So, here establish the link and then do the work.
 	rangeChildren, switchChildren, typeSwitchChildren := collectChildren(funcDecl)
 	markRangeStatements(graph, rangeChildren)
-	markSwitchStatements(graph, switchChildren)
+	switchCondBlocks := markSwitchStatements(graph, switchChildren)
 	p.markTypeSwitchStatements(graph, typeSwitchChildren)
+
+	// The conditions `tag == e` synthesized for the cases of tagged switches did not exist when the conditionals were
+	// canonicalized above (the case expressions were deliberately skipped there), so we canonicalize them now, e.g.,
+	// `true == (x != nil)` (from `switch true { case x != nil: }`) to `x == nil` with swapped successors. This is
+	// safe to do only now, since markSwitchStatements relies on the successor order of the CFG builder.
+	p.taggedSwitchCaseExprs = nil
+	for _, block := range switchCondBlocks {
+		p.canonicalizeConditional(graph, block)
+	}
 
 	// Please check the docstring of the following call to see why this is needed.
 	// TODO: remove this once anonymous function support handles it naturally.
@@ -584,8 +593,12 @@ func markRangeStatements(graph *cfg.CFG, rangeChildren map[ast.Node]*ast.RangeSt
 // invariant - consecutive cases of a switch statement have block numbers whose ordering
 // reflects the syntactic ordering of the cases - if a case were to have a lower block number
 // than its initial switch statement this would be broken
-func markSwitchStatements(graph *cfg.CFG, switchChildren map[ast.Node]*ast.SwitchStmt) {
+//
+// It returns the blocks that now end with a synthesized condition (in the order of the blocks in the graph, and of the
+// cases within a switch statement).
+func markSwitchStatements(graph *cfg.CFG, switchChildren map[ast.Node]*ast.SwitchStmt) []*cfg.Block {
 	knownCaseBlockIdxs := make(map[int32]bool)
+	var condBlocks []*cfg.Block
 
 	for i, block := range graph.Blocks {
 		if knownCaseBlockIdxs[int32(i)] {
@@ -621,6 +634,7 @@ func markSwitchStatements(graph *cfg.CFG, switchChildren map[ast.Node]*ast.Switc
 		}
 
 		knownCaseBlockIdxs[block.Index] = true
+		condBlocks = append(condBlocks, block)
 		caseBlockIdx := block.Succs[1].Index
 		for len(graph.Blocks[caseBlockIdx].Succs) == 2 {
 			knownCaseBlockIdxs[caseBlockIdx] = true
@@ -640,12 +654,14 @@ func markSwitchStatements(graph *cfg.CFG, switchChildren map[ast.Node]*ast.Switc
 					Y:     caseBlock.Nodes[0].(ast.Expr),
 				},
 			}
+			condBlocks = append(condBlocks, caseBlock)
 
 			if blockSuccs := graph.Blocks[caseBlockIdx].Succs; blockSuccs != nil {
 				caseBlockIdx = blockSuccs[1].Index
 			}
 		}
 	}
+	return condBlocks
 }
 
 // markTypeSwitchStatements rewrites a CFG to re-insert the branch conditions of type switches.
